@@ -13,9 +13,12 @@
 
 /* Appends n records to path. mode 0: truncate/create, 1: append (log reuse: the
  * writer is told the current file size, exactly like ldb_recover_log_file does). */
+typedef void lf_after_cb(void *arg, size_t index);
+
 int
 lf_write(const char *path, int mode, const unsigned char **recs,
-         const size_t *lens, size_t n, int sync_each) {
+         const size_t *lens, size_t n, int sync_each,
+         lf_after_cb *after, void *after_arg) {
   ldb_wfile_t *file = NULL;
   ldb_writer_t *lw;
   uint64_t size = 0;
@@ -39,6 +42,10 @@ lf_write(const char *path, int mode, const unsigned char **recs,
     ldb_slice_t s = ldb_slice(recs[i], lens[i]);
 
     rc = ldb_writer_add_record(lw, &s);
+
+    /* the caller looks at what the operating system has at this point */
+    if (rc == LDB_OK && after != NULL)
+      after(after_arg, i);
 
     if (rc == LDB_OK && sync_each)
       rc = ldb_wfile_sync(file);
